@@ -9,10 +9,15 @@
 (* the reference predicate on the environment's chain (ModelAgrees).         *)
 (* The Never* predicates are vacuity guards: the check runs them expecting   *)
 (* a counterexample (a witness that the situation is reachable).             *)
+(* Very deep burial: DX abstracts MAX_CLOSING_DEPTH (> D), Around the offsets *)
+(* of the Bury sizes around D and DX; the run "deep" (one channel, single     *)
+(* blocks) reaches every partly swept close buried by DX and more, where      *)
+(* C15a / ModelAgrees say the channel is kept.  BuryLemma: the closed form of *)
+(* Bury(k) used by Step equals k single empty blocks.                         *)
 (***************************************************************************)
 EXTENDS Lifecycle
-CONSTANTS D, S, W, MaxD, Cd, Kinds, Pairs, BurySizes, Rev, MaxH, Crash
-K == WithCrash(MkK(D, S, W, MaxD, Cd, Kinds, Pairs, BurySizes, Rev, TRUE, "compact", TRUE), Crash)
+CONSTANTS D, S, W, MaxD, Cd, Kinds, Pairs, BurySizes, Rev, MaxH, Crash, DX, Around
+K == WithDeep(WithCrash(MkK(D, S, W, MaxD, Cd, Kinds, Pairs, BurySizes, Rev, TRUE, "compact", TRUE), Crash), DX, Around)
 
 VARIABLES s, g, last
 Init == s = InitState(K) /\ g = InitGhost /\ last = [op |-> "init"]
@@ -37,6 +42,8 @@ TypeOK ==
 \* the monitor's view agrees with the reference on the environment's chain
 ModelAgrees == \A d \in DOMAIN s.chans :
                  s.chans[d].ph = "ready" => (IsDone(K, s.chans[d], s.h) <=> (s.chans[d].fg /\ RefDone(K, s.ev, s.h, d)))
+\* the closed form of Bury(k) is k single empty blocks
+BuryLemma == \A k \in BurySet(K) : BuryK(K, s, k) = Repeat(K, s, "C", k)
 \* a refusal changes nothing
 Frame == [][ last'.rc # "ok" /\ last'.r.op \notin {"Unbury"} => s' = s ]_<<s, g, last>>
 
@@ -49,4 +56,8 @@ NeverTooDeep     == [][~(last'.r.op = "Disconnect" /\ last'.rc = "err" /\ s.h > 
 NeverKeptAtDm1   == [][~(last'.r.op = "Heartbeat" /\ \E d \in DOMAIN s.chans :
                           LET c == s.chans[d] IN c.ph = "ready" /\ c.fg /\ s'.chans[d].ph = "ready"
                                                  /\ DepthOf(s.h, Max2(Max2(c.dsh, c.mch), c.csh)) = K.D - 1)]_vars
+\* a forgotten channel whose unilateral close has only the main output swept is kept at DX confirmations and more
+NeverKeptBeyondDX == [][~(last'.r.op = "Heartbeat" /\ \E d \in DOMAIN s.chans :
+                          LET c == s.chans[d] IN c.ph = "ready" /\ c.fg /\ s'.chans[d].ph = "ready"
+                                                 /\ c.oosh # -1 /\ c.csh = -1 /\ DepthOf(s.h, c.oosh) >= K.DX)]_vars
 =============================================================================
